@@ -22,7 +22,7 @@ TECHNIQUE = 'inverse-physical-law oracle over random parameter sets, per-branch 
 RULE = ('parameter sets over physical ranges x 25 points each; non-trivial = set exercising a non-default branch (lead != 0, T < 0, initial '
         'voltage != 0, gain != 1, voltage excitation); distinct = rounded parameter tuple')
 ASSUMPTIONS = ['tolerance 1e-6 relative with a 1e-9 absolute floor near zero']
-REQUIRED = ['decoy_objects', 'repeated_scale_calls', 'through_channel_chained', 'input_dtype_independence_calls', 'single_precision_points', 'rtd_cross_object_points', 'purity_calls', 'rtd_points', 'rtd_branch_point_sets', 'rtd_quartic_points', 'thermistor_points', 'strain_points', 'poly_points', 'table_points', 'through_channel',
+REQUIRED = ['chained_partial_reads', 'poly_through_channel', 'decoy_objects', 'repeated_scale_calls', 'through_channel_chained', 'input_dtype_independence_calls', 'single_precision_points', 'rtd_cross_object_points', 'purity_calls', 'rtd_points', 'rtd_branch_point_sets', 'rtd_quartic_points', 'thermistor_points', 'strain_points', 'poly_points', 'table_points', 'through_channel',
             'branch:rtd:2-wire', 'branch:rtd:3-wire', 'branch:rtd:4-wire', 'branch:thermistor:current', 'branch:thermistor:voltage'] + \
            ['branch:strain:%d' % c for c in (10183, 10184, 10185, 10188, 10189, 10271, 10272)]
 N = {'quick': 9600, 'thorough': 3000000}
@@ -97,7 +97,18 @@ def through_channel(ctx, scale_desc, volts, chain=False):
     props = SG.graph_props(graph)
     rng = random.Random(0)
     segs = M.build_file(rng, [('g', 'c', 'f64', len(volts), props)], nseg=1, nchunks=(1,), values_fn=lambda p, t, n: raw)
-    return TdmsFile.read(io.BytesIO(M.encode_file(segs)[0]))['g']['c'][:]
+    blob = M.encode_file(segs)[0]
+    whole = TdmsFile.read(io.BytesIO(blob))['g']['c'][:]
+    if chain and len(volts) >= 6:
+        # consecutive partial reads of the same lazily opened channel must give the windows of the whole
+        with TdmsFile.open(io.BytesIO(blob)) as lf:
+            lc = lf['g']['c']
+            k = len(volts) // 3
+            parts = [lc.read_data(0, k), lc.read_data(k, k), lc[2 * k:]]
+            ctx.count('chained_partial_reads')
+            if not np.array_equal(np.concatenate(parts), whole, equal_nan=True):
+                raise AssertionError('consecutive partial reads of a chained scaling differ from the whole read')
+    return whole
 
 
 # ------------------------------------------------------------------ RTD
@@ -294,7 +305,7 @@ def strain(case, ctx, rng):
 # ------------------------------------------------------------------ polynomial / table
 def poly(case, ctx, rng):
     import nptdms.scaling as S
-    nc = rng.choice([0, 1, 2, 3, 4, 6, 9])
+    nc = rng.choice([0, 1, 2, 3, 4, 6, 9, 11, 12, 14])
     coeffs = [SG.rand_coeff(rng) for _ in range(nc)]
     t = rng.choice(M.NUMERIC_REAL)
     xs = np.array([rng.choice([0, 1, -1, 7, rng.randrange(-100, 100)]) if t[0] in 'iu' else rng.uniform(-20, 20) for _ in range(25)])
@@ -323,6 +334,17 @@ def poly(case, ctx, rng):
         if abs(Fraction(g) - exact) > tol:
             ctx.violation('polynomial/differs-from-horner', {'coeffs': coeffs, 'x': x, 'got': g, 'exact': float(exact)})
             break
+    # the same polynomial configured through NI_Scale properties (coefficient i is property ..._Coefficients[i])
+    if nc:
+        try:
+            via = np.asarray(through_channel(ctx, dict(kind='Polynomial', coeffs=coeffs, src=SG.RAW), xs.astype('f8')), dtype='f8')
+            direct = np.asarray(psc.scale(xs.astype('f8')), dtype='f8')
+            ctx.count('poly_through_channel')
+            if not np.array_equal(via, direct, equal_nan=True):
+                ctx.violation('polynomial/through-properties-differs/%s' % ('more-than-10-coefficients' if nc > 10 else 'up-to-10-coefficients'),
+                              {'coeffs': coeffs, 'via_properties': via[:3].tolist(), 'direct': direct[:3].tolist()})
+        except Exception as ex:
+            ctx.violation('polynomial/through-properties-raises/%s' % util.exc_key(ex), {'coeffs': coeffs, 'exc': util.exc_detail(ex)})
     ctx.sample({'case': case, 'coeffs': coeffs, 'type': t}, limit=1)
 
 
